@@ -34,9 +34,20 @@ def _same_site(card, f):
     return e.get("cls") == f.get("cls") and e.get("func") == f.get("func")
 
 
-def _gone_without(case, f, key="without"):
-    """rule (iii): the file without the first input that fails on its own does not fail the same way"""
-    w = (case.get("iso") or {}).get(key) or {}
+def _matching(case, f):
+    """the input of the case that, constructed on its own, fails like the failure (same class, same function)"""
+    iso = case.get("iso") or {}
+    if iso.get("out") != "ok":
+        return None
+    for c in iso.get("cards") or []:
+        if c.get("exc") and _same_site(c, f) and "without" in c:
+            return c
+    return None
+
+
+def _gone_without(card, f, key="without"):
+    """rule (iii): the file without that input does not fail the same way"""
+    w = (card or {}).get(key) or {}
     return not (w.get("out") == "raise" and w.get("cls") == f.get("cls") and w.get("func") == f.get("func"))
 
 
@@ -60,15 +71,19 @@ def C13_int_conversion(case, params):
         return False
     if not (f.get("msg") or "").startswith("invalid literal for int()"):
         return False
-    card = _first(case)
-    if card is None or not _same_site(card, f):
+    card = _matching(case, f)
+    if card is None:
         return False
     body = _data_part(_card_text(case, card))
     m = re.search(r"'([^']*)'", f.get("msg") or "")
-    # the literal int() refused stands in that input and is not an integer
-    if not m or not m.group(1) or m.group(1) not in body or re.match(r"^[+-]?\d+$", m.group(1)):
+    # the literal int() refused is not an integer and stands in that input — or the input holds an interpolate /
+    # multiply shortcut that generates non-integers (`-57 i 0.5` -> -28.25)
+    if not m or re.match(r"^[+-]?\d+$", m.group(1)):
         return False
-    return _gone_without(case, f)
+    shortcut = re.search(r"(?i)(?<![\w.])\d*(i|ilog|log|[\d.]+m)(?![\w.])", body)
+    if m.group(1) not in body and not shortcut:
+        return False
+    return _gone_without(card, f)
 
 
 _LEGAL = {}
@@ -86,14 +101,14 @@ def C13_lexerror(case, params):
     f = _f(case)
     if f.get("kind") != "leak" or f.get("cls") != "LexError":
         return False
-    card = _first(case)
-    if card is None or (card.get("exc") or {}).get("cls") != "LexError":
+    card = _matching(case, f)
+    if card is None:
         return False
     legal = _legal()[card["block"] if card["block"] in (0, 1, 2) else 2]
     body = _data_part(_card_text(case, card))
     if not any((32 <= ord(ch) < 127) and ch not in legal for ch in body):
         return False
-    return _gone_without(case, f)
+    return _gone_without(card, f)
 
 
 RAW_CLASSES = ("ValueError", "TypeError", "AttributeError", "KeyError", "IndexError")
@@ -112,10 +127,10 @@ def C13_constructor_raw_exception(case, params):
     in_scope = where.startswith(RAW_FILES) or ("enum.py" in where and "is not a valid" in (f.get("msg") or ""))
     if not in_scope:
         return False
-    card = _first(case)
-    if card is None or not _same_site(card, f):
+    card = _matching(case, f)
+    if card is None:
         return False
-    return _gone_without(case, f)
+    return _gone_without(card, f)
 
 
 def _universe_facts(text):
@@ -199,12 +214,12 @@ def C13_check_constructor_errors(case, params):
     f = _f(case)
     if f.get("kind") != "check-raises":
         return False
-    card = _first(case)
-    if card is None or not _same_site(card, f):
+    card = _matching(case, f)
+    if card is None:
         return False
     if any(c in (card["exc"].get("mro") or []) for c in CAUGHT_PER_INPUT):
         return False
-    return _gone_without(case, f, "without_check")
+    return _gone_without(card, f, "without_check")
 
 
 def _data_words(text):
